@@ -20,6 +20,7 @@ from __future__ import annotations
 
 import ast
 import re
+from fractions import Fraction
 
 from ..common import AnalysisError, norm_src, unparse
 from ..exact import Poly, const_value, poly_eval
@@ -336,6 +337,79 @@ def _mult_of_mask(node):
     return None
 
 
+def spherical_formulas(rep):
+    """The written form of the Cartesian -> spherical map: r = sqrt(x^2+y^2+z^2), the
+    inclination is the angle from the +z axis over its full range [0, pi] (arccos(z/r) or
+    arctan2(rho, z)), the azimuth sign(y) arccos(x/rho).  (The numerical round trip itself is
+    trigonometry and is not decided; an inclination computed through arcsin(rho/r), which only
+    covers [0, pi/2], is a different function, not a rounding matter.)"""
+    from .. import symdiff
+    from ..tpoly import P, asP
+    S = rep.sources
+    fn = S.function(FD, "FiniteDifference.cartesian_to_spherical")
+    env = {a.arg: P.atom(a.arg) for a in fn.args.args[1:]}
+
+    def ev(node):
+        c = const_value(node)
+        if c is not None:
+            return asP(c)
+        if isinstance(node, ast.Name):
+            if node.id not in env:
+                raise AnalysisError("cartesian_to_spherical: unbound " + node.id)
+            return env[node.id]
+        if isinstance(node, ast.UnaryOp) and isinstance(node.op, ast.USub):
+            return -ev(node.operand)
+        if isinstance(node, ast.BinOp):
+            a, b = ev(node.left), ev(node.right)
+            if isinstance(node.op, ast.Add):
+                return a + b
+            if isinstance(node.op, ast.Sub):
+                return a - b
+            if isinstance(node.op, ast.Mult):
+                return a * b
+            if isinstance(node.op, ast.Div):
+                return a * b.pow(-1)
+            if isinstance(node.op, ast.Pow):
+                return symdiff.power(a, b)
+        if isinstance(node, ast.Call):
+            f = unparse(node.func)
+            args = [ev(a) for a in node.args]
+            if f == "maths.safe_division":
+                return args[0] * args[1].pow(-1)
+            if f.startswith("np."):
+                return symdiff.fn_atom(f[3:], args)
+        if isinstance(node, ast.Attribute) and unparse(node) == "np.pi":
+            return P.atom("pi")
+        raise AnalysisError("cartesian_to_spherical: expression not understood: "
+                            + unparse(node)[:60])
+    for st in fn.body:
+        if isinstance(st, ast.Assign) and isinstance(st.targets[0], ast.Name):
+            try:
+                env[st.targets[0].id] = ev(st.value)
+            except AnalysisError:
+                if st.targets[0].id in ("r", "theta", "phi"):
+                    raise
+    x, y, z = (P.atom(a.arg) for a in fn.args.args[1:])
+    r2 = x * x + y * y + z * z
+    rho2 = x * x + y * y
+    key = f"{FD}::FiniteDifference.cartesian_to_spherical"
+    rep.check(env.get("r") == r2.pow(Fraction(1, 2)), "spherical-formulas", key + "::r",
+              f"r is {env.get('r')!r}, expected sqrt(x^2+y^2+z^2)", node=fn)
+    r = r2.pow(Fraction(1, 2))
+    rho = rho2.pow(Fraction(1, 2))
+    ok_theta = env.get("theta") in (symdiff.fn_atom("arccos", [z * r.pow(-1)]),
+                                    symdiff.fn_atom("arctan2", [rho, z]))
+    rep.check(ok_theta, "spherical-formulas", key + "::theta",
+              f"the inclination is {env.get('theta')!r}; it must be the angle from the +z axis "
+              "over [0, pi]: arccos(z/r) (or arctan2(rho, z)); e.g. arcsin(rho/r) folds the "
+              "lower hemisphere onto the upper one", node=fn)
+    want_phi = symdiff.fn_atom("sign", [y]) * symdiff.fn_atom("arccos", [x * rho.pow(-1)])
+    ok_phi = env.get("phi") in (want_phi, symdiff.fn_atom("arctan2", [y, x]))
+    rep.check(ok_phi, "spherical-formulas", key + "::phi",
+              f"the azimuth is {env.get('phi')!r}, expected sign(y) arccos(x/rho) (or "
+              "arctan2(y, x))", node=fn)
+
+
 def run(rep):
     rep.explanation = (
         "Structural decision of the count/position/extent/shape clauses of C16 for all "
@@ -355,6 +429,7 @@ def run(rep):
     meshgrid(rep, init)
     axis_index_pairing(rep)
     trims(rep)
+    spherical_formulas(rep)
     rep.floor("coordinate-array", 3)
     rep.floor("extent-provenance", 9)
     rep.floor("axis-siblings", 12)
